@@ -494,19 +494,27 @@ class ModelsWorld(World):
         r = self.live[h]
         how = rng.choice(ADAPTERS[r.cls].file_kinds)
         return {"op": "save", "args": {"h": h, "path": f"/sim/m{rng.randrange(self.cfg['paths'])}.bin", "how": how,
-                                       "plan": self._gen_plan(flt)}}
+                                       "plan": self._gen_plan(flt), "pathlike": rng.random() < 0.2}}
 
     def _gen_load(self, actor, rng, val, flt):
         paths = sorted(self.disk)
         if not paths:
             return None
-        return {"op": "load", "out": [self._name()], "args": {"path": rng.choice(paths), "plan": self._gen_plan(flt, reading=True)}}
+        return {"op": "load", "out": [self._name()], "args": {"path": rng.choice(paths), "plan": self._gen_plan(flt, reading=True),
+                                                              "pathlike": rng.random() < 0.2}}
 
     def _gen_split(self, actor, rng, val, flt):
         h = self._pick(rng, actor, lambda r: r.real.num_variants > 1)
         if h is None:
             return None
-        return {"op": "split", "args": {"h": h, "k": rng.randrange(self.live[h].real.num_variants)}}
+        step = {"op": "split", "args": {"h": h, "k": rng.randrange(self.live[h].real.num_variants)}}
+        r = self.live[h]
+        if rng.random() < 0.4:
+            kinds = [k for k in ADAPTERS[r.cls].spawn_kinds if k in ("copy", "deepcopy", "pickle", "dill")]
+            step["args"]["view_replica"] = rng.choice(kinds)
+            if r.cls != "var":
+                step["args"]["values"] = self._draw_params(val, r.tname, 1, subset=True, rng=rng)
+        return step
 
     def _gen_replay(self, actor, rng, val, flt):
         h = self._pick(rng, actor)
@@ -831,7 +839,7 @@ class ModelsWorld(World):
             self.probes["save_over_existing_file"] += 1
             if self.disk[path] == "torn":
                 self.probes["save_over_torn_file"] += 1
-        status, res, fired = self._run_io(self._saver(r.real, how, path), plan)
+        status, res, fired = self._run_io(self._saver(r.real, how, __import__("pathlib").Path(path) if a.get("pathlike") else path), plan)
         faulted = any(k not in ("short_write", "short_read", "eintr") for k in fired)
         for p, b in before.items():
             if p != path and bytes(self.fs.files.get(p, b"")) != b:
@@ -882,7 +890,7 @@ class ModelsWorld(World):
             return "torn:" + status
         pred = rec["pred"]
         opname = "load." + rec["how"]
-        status, res, fired = self._run_io(self._loader(rec, path), plan)
+        status, res, fired = self._run_io(self._loader(rec, __import__("pathlib").Path(path) if a.get("pathlike") else path), plan)
         faulted = any(k not in ("short_write", "short_read", "eintr") for k in fired)
         self._isolation(opname, pred)
         if status == "crashed":
@@ -981,7 +989,46 @@ class ModelsWorld(World):
         out = self._split_check(r, a["k"], "split")
         if out == "ok":
             self._isolation("split", self._pred(r))
+        if a.get("view_replica") and a["k"] < r.real.num_variants and r.real.num_variants > 1:
+            self._view_replica(r, a["k"], a["view_replica"], a.get("values") or {})
         return out
+
+    def _view_replica(self, r, k, how, values):
+        """A replica taken from the view model[k] (a second-generation object: the view shares variant k with its parent)
+        is a single-variant model that holds variant k and shares nothing with the parent."""
+        pred = self._pred(r)
+        opname = "split.view." + how
+        ad = ADAPTERS[r.cls]
+        try:
+            view = r.real[k] if r.cls == "sim" else r.real.get_variant(k)
+            if how == "copy":
+                c = view.copy()
+            elif how == "deepcopy":
+                c = _copy.deepcopy(view)
+            elif how == "pickle":
+                c = pickle.loads(pickle.dumps(view))
+            else:
+                import dill
+                c = dill.loads(dill.dumps(view))
+        except Exception as e:
+            strip_traceback(e)
+            raise Violation("crash", opname, pred, type(e).__name__, f"{how} of the view of variant {k} raised {type(e).__name__}: {str(e)[:160]}")
+        keys = {"sim": ("params", "stds", "levels", "changes", "solution"), "seq": ("params",), "var": ("system", "fitted")}[r.cls]
+        cc, pc = ad.cheap(c), self._cheap(r)
+        if cc["nv"] != 1:
+            raise Violation("split", opname, pred, "", f"the replica of a view has {cc['nv']} variants")
+        for key in keys:
+            d = obs_diff(project(cc[key], 0), project(pc[key], k), RTOL)
+            if d:
+                raise Violation("split", opname, pred, "", f"{how} of the view of variant {k} does not hold variant {k}: {key}{d}")
+        # independence in both directions: a change of the replica reaches nobody (the parent least of all)
+        if values:
+            try:
+                ad.mutate(c, {"k": "assign", "values": values})
+            except Exception as e:
+                strip_traceback(e)
+        self._isolation(opname, pred)
+        self.probes["replica_of_a_view_checked"] += 1
 
     def _split_check(self, r, k, opname):
         nv = r.real.num_variants
